@@ -5,7 +5,7 @@ compare with the documented matching semantics (a table in this file). Robust to
 """
 import ast
 from .core import AnalysisError
-from .astutil import src, strip_doc, if_chain, terminates, helper_def, helper_bindings
+from .astutil import src, strip_doc, if_chain, terminates, helper_def, helper_bindings, as_ladder
 
 Q = 'chython.periodictable.base.query'
 
@@ -561,7 +561,7 @@ def rule_constraint_normalisers(ck, repo, R):
             par = 'value'
         ck.require(f is not None, f'normaliser {name} not found')
         par = f.params()[-1] if where == 'setter' else f.params()[0]
-        body = strip_doc(f.node.body)
+        body = as_ladder(strip_doc(f.node.body))  # guard clauses `if ..: return` read as the arms of one ladder
         ck.require(len(body) == 1 and isinstance(body[0], ast.If), f'{name}: not a single if-ladder')
         arms = if_chain(body[0])
         # arm selection over sample values
